@@ -5,10 +5,10 @@ from imports import imported
 
 PROPERTY = "C09"
 LEVEL = "proof"
-EXPLANATION = ""
-TRUSTED = []
+EXPLANATION = ("Proof of the operand-selection rules of the SuperscalarHash generator on the real selectDestination / selectSource / selectRegister (ready at the cycle, distinct from the source unless allowed, no chained multiplication unless permitted, not the same group and parameter twice, r5 never the destination of IADD_RS and forced as source when it is one of two candidates) with their frame. The scheduler, decoder-buffer choice, termination and the equality of the generated programs with the specification's generator are not decided.")
+TRUSTED = ['stand-ins with contracts: instruction-type query (info_->getType()) and generator draw (Blake2Generator::getUInt32)', 'std::vector<int> of candidate registers is a fixed-capacity (8) list stand-in; exceeding the capacity is an assertion failure']
 ASSUMPTIONS = []
-NOT_DECIDED = []
+NOT_DECIDED = ['generateSuperscalar scheduler (port map, decode buffers, throw-away counter, termination, program size bounds)', "equality of the eight generated programs with the specification's generator for every key", 'executeSuperscalar vs generateSuperscalarCode (native code) equivalence', 'address-register choice (longest dependency chain)']
 INC = ["@suites/common"]
 
 
